@@ -21,6 +21,7 @@ import (
 	evymain "evylang.dev/evy"
 	"evylang.dev/evy/vdrv/core"
 	"evylang.dev/evy/vdrv/gen"
+	"evylang.dev/evy/vdrv/l2"
 	"evylang.dev/evy/vdrv/work"
 	"evylang.dev/evy/vsim/prng"
 	"evylang.dev/evy/vsim/simos"
@@ -96,6 +97,12 @@ func (d *D) Base(idx int, ctx *core.Ctx) *core.Scenario {
 	if r.Chance(0.5) {
 		sc.Faults = []core.Fault{{Kind: "stop", At: 1 + r.Intn(400)}}
 	}
+	if idx%13 == 7 {
+		sc.Level = "L2"
+		sc.Kind = "l2:" + strings.TrimPrefix(sc.Kind, "l1:")
+		sc.Faults = nil
+		sc.Schedule.ClockCostNs = int64([]int{5_000, 20_000, 200_000}[r.Intn(3)])
+	}
 	return sc
 }
 
@@ -128,6 +135,11 @@ func (d *D) streamBase(idx int, ctx *core.Ctx) *core.Scenario {
 		}
 	case 3: // empty input
 		full = ""
+	}
+	if r.Chance(0.06) {
+		// a very long line, delivered over many reads
+		n := []int{4096, 65535, 65536, 70000, 300000}[r.Intn(5)]
+		full = strings.Repeat("y", n) + nl + full
 	}
 	sc.Stdin = full
 	for n := len(full); n > 0; {
@@ -270,8 +282,51 @@ func trunc(s string, n int) string {
 	return s
 }
 
+// checkL2 runs the scenario under the simulated browser: the real string
+// marshalling (alloc/getString), event queue and jsPlatform are in the path.
+func (d *D) checkL2(sc *core.Scenario, ctx *core.Ctx) *core.Violation {
+	pre := &core.Result{}
+	core.InstallSchedule(&sc.Schedule)
+	if core.ParseProgram(sc.Program, pre) == nil {
+		if ctx != nil {
+			ctx.Inc("evaluations", 1)
+			if pre.EndClass == core.EndParserCrash {
+				ctx.Inc("parser_crash_observed_outside_scope(C03)", 1)
+			} else {
+				ctx.Inc("programs_rejected_by_parser", 1)
+			}
+		}
+		return nil
+	}
+	r := l2.Run(sc, l2.Opts{StopWhenIdle: true, AutoType: true, RelativeToReg: true, MaxVirtualNs: 60_000_000_000, MaxSteps: 1_000_000})
+	if ctx != nil {
+		ctx.Inc("evaluations", 1)
+		ctx.Inc("l2_runs", 1)
+		ctx.Inc("events_handled", int64(len(r.Calls)))
+		ctx.Inc("simulated_ns", r.EndNs)
+		ctx.Inc("steps", r.Steps)
+		ctx.Distinct(prng.HashString("l2" + sc.Program + fmt.Sprint(sc.Events, sc.Inputs)))
+	}
+	if r.HostPanic != "" {
+		return &core.Violation{Oracle: "no-host-panic", Signature: "host-panic:L2:" + trunc(sigOf(r.HostPanic), 34),
+			Expected: "execution never crashes the host runtime",
+			Observed: map[string]any{"panic": trunc(r.HostPanic, 300), "top_evy_frame": r.TopFrame, "events_delivered": len(r.Calls)},
+			Match:    map[string]string{"outcome": "host-panic", "top_evy_frame": r.TopFrame, "value": sigOf(r.HostPanic)}}
+	}
+	for _, e := range r.Errors {
+		if strings.Contains(e, "internal error") && len(r.Registered)+len(r.Effects) > 0 {
+			return &core.Violation{Oracle: "no-internal-error", Signature: "internal:L2", Expected: "never an internal or type error",
+				Observed: map[string]any{"error": trunc(e, 300)}, Match: map[string]string{"outcome": "internal"}}
+		}
+	}
+	return nil
+}
+
 // check runs one scenario and applies the monitor.
 func (d *D) check(sc *core.Scenario, ctx *core.Ctx) *core.Violation {
+	if sc.Level == "L2" {
+		return d.checkL2(sc, ctx)
+	}
 	if sc.Kind == "stream" {
 		// only accepted programs are this property's business: a program the
 		// parser rejects – or crashes on, which is C03's pure-input territory – is skipped and counted
@@ -461,6 +516,7 @@ func (d *D) Describe(ev *core.Evidence, st *core.Stats) {
 	ev.Coverage["rule"] = "one evaluation = one simulated run: either an accepted program under the simulated platform (L1) with an input script (possibly too short), an event history with adversarial payloads and possibly a stop at a seeded fault point, or the real `evy run` command on the real terminal platform with stdin delivered in seeded chunks and ending after any byte and a possibly failing stdout; the monitor requires an allowed end class (ok, Evy panic, exit, failed test, stopped only if a stop was raised), no internal error, no Go panic, a surviving worker process, and declared types for values that crossed the boundary; distinct by hash(program, inputs/stdin, events, faults)"
 	ev.Coverage["l1_runs"] = c["l1_runs"]
 	ev.Coverage["stream_runs"] = c["stream_runs"]
+	ev.Coverage["l2_runs"] = c["l2_runs"]
 	faults := map[string]int64{}
 	ends := map[string]int64{}
 	for k, v := range c { // copied into maps that json sorts
@@ -476,8 +532,9 @@ func (d *D) Describe(ev *core.Evidence, st *core.Stats) {
 	ev.Coverage["simulated_time_s"] = float64(c["simulated_ns"]) / 1e9
 	ev.Coverage["steps"] = c["steps"]
 	ev.Coverage["components"] = map[string][]string{
-		"real": {"lexer", "parser", "evaluator", "builtins", "stream runs: kong, runCmd.Run, cli.Platform (bufio reader, writer)"},
-		"stub": {"L1: platform (SimPlatform) and event loop", "stream runs: os.Stdin/Stdout/Stderr/ReadFile/Exit (simos)"}}
+		"real":                {"lexer", "parser", "evaluator", "builtins", "stream runs: kong, runCmd.Run, cli.Platform (bufio reader, writer)"},
+		"real in the L2 runs": {"pkg/wasm glue incl. alloc/getString string marshalling of event payloads"},
+		"stub":                {"L1: platform (SimPlatform) and event loop", "L2: the browser (simjs)", "stream runs: os.Stdin/Stdout/Stderr/ReadFile/Exit (simos)"}}
 	ev.Assumptions = []string{
 		"scoped claim: type soundness over all programs is a statement about pure functions and is not decided here; this check decides the part of the quantifier that arrives through the platform boundary (inputs and their end, event payloads, sleeps, stop)",
 		"events are delivered to registered handlers only, with the arity and Go types docs/builtins.md prescribes",
